@@ -65,15 +65,15 @@ CLAIMS = {
          "exponent magnitude above 2^40), plus ParseUint/ParseInt, text positions, error rendering. Not decided: the schema/enum/JSON scanners, "
          "loader, compiler, checker, OpenAPI conversion (not under contract), stack depth, memory exhaustion.",
          "5 C02", "weakest-precondition VCs over go/ssa + SMT (safety obligations on every operation, decreases clauses)"),
- "C12": ("Partial. For the JSON document scanner every one of the 39 state functions (contracts instantiated mechanically per function from "
-         "the source), found/shiftFound/processingFoundLexeme, Next, newScanner and Document.nextLexeme/NextLexeme/rewind are proved: no "
-         "run-time panic on any byte and any nesting depth; closed-world dispatch of s.step; every panic raised is an error value, either a "
-         "kit.JSchemaError positioned on the byte just read (index inside the text) or a coded *errs.Err, hence nextLexeme converts it and no "
-         "panic escapes; at most three queued events, only JSON event types, stack entries are opening events; the unfinishedLiteral flag that "
-         "decides acceptance at end of input agrees with the scanner state for numbers and true/false/null (incomplete after '-', '.', e/E, "
-         "exponent sign, inside a keyword; complete after digits); Next's reading loop terminates. Not decided: the language equality with the "
-         "RFC 8259 pushdown automaton for nesting (coupling of the event stack with the automaton's stack), exact lexeme spans and pairing, tree equality with an "
-         "independent decoder, Len().",
+ "C12": ("Partial. For the JSON document scanner every one of the 39 state functions is proved to implement exactly its row of a reference pushdown transducer "
+         "written from the RFC 8259 grammar (tools/jsondoc_rows.py: for every byte class and, after a complete value, every shape of the event stack, the next state, "
+         "the lexeme events queued in order, the literal flag, and the exact set of bytes that are refused with a positioned error); processingFoundLexeme is proved to "
+         "implement the event-stack discipline exactly (opening events pushed at the byte just read, closing events pop their partner and span to that byte or the one "
+         "before it, mismatches refused); found/shiftFound are exact queue operations. In addition: no run-time panic on any byte at any nesting depth, closed-world dispatch "
+         "of s.step, every panic is an error value so nextLexeme lets none escape, at most three queued events, the unfinishedLiteral flag that decides acceptance at end of "
+         "input agrees with the state (truncated numbers / keywords rejected), Next's reading loop terminates. Not machine-checked: that the transducer of the rows is the "
+         "RFC 8259 grammar (it is written to be read against it), the composition of the rows over a whole text (language equality as a theorem about Check()), tree equality "
+         "with an independent decoder, Len().",
          "5 C12", "weakest-precondition VCs over go/ssa + SMT; function-type contract instantiated per state function"),
  "C10": ("Partial (the aliasing half). The eight functions that take a buffer from a process-wide sync.Pool (exampleBuilder.buildExampleForObjectNode/"
          "ArrayNode and Build/buildObjectKey/buildExampleForMixedValueNode, the four legacy buildExample* functions, Enum/ArrayItems/ObjectProperties/"
